@@ -100,3 +100,21 @@ Lemma keep_paused_refuted :
             plookup (0, 0) (keep_paused [(0, 0)] [((0, 0), (10, 0)); ((1, 0), (20, 1))] (pools (st w))) = Some (10, 0) /\
             clookup 0 (cpools (config (st w))) = None.
 Proof. eexists. split; [vm_compute; reflexivity|]. vm_compute. auto. Qed.
+
+(** ---------------------------------------------------------------------------------------------------------
+    Mutant 4: the lookup AFTER wait_paused() is dropped: a transaction that was held by PAUSE runs on the pool
+    object its client looked up BEFORE waiting ([cclone] at the time it parked). *)
+Definition held_new : cfg := {| cgen := 1; cidle := 0; cpools := [(0, (11, [0])); (1, (20, [0]))] |}.   (* pool 0 redefined *)
+Definition held_ops : list op :=
+  [OReload (Valid two_pools (bo_of [] [])); OConnect 0 0 0; OPause (0, 0); OBegin 0;
+   OReload (Valid held_new (bo_of [] [])); OResume (0, 0)].
+
+(** the first statement is held; the reload rebuilds the pool (object 2) while the client waits with a clone of
+    object 0; after RESUME the model starts the transaction on object 2 — the mutant would use object 0 *)
+Lemma wake_stale_refuted :
+  exists w x, run idh empty_world held_ops =
+                (w, [ObReload (ROk true); ObConnected 0; ObAdmin true; ObBlocked; ObReload (ROk true); ObAdmin true]) /\
+              cl_lookup 0 (clients w) = Some x /\ cclone x = 0 /\ is_waiting w 0 = true /\
+              begin_txn (st w) 0 0 = Some 2 /\ In (2, ((0, 0), 11)) (objs w) /\ In (0, ((0, 0), 10)) (objs w) /\
+              exists w' s, step idh w (OWake 0) = (w', ObBegun 2 s true).
+Proof. eexists. eexists. split; [vm_compute; reflexivity|]. vm_compute. repeat split; auto. eexists. eexists. reflexivity. Qed.
